@@ -7,6 +7,7 @@ package helper
 import (
 	"encoding/csv"
 	"errors"
+	"fmt"
 	"io"
 	"io/fs"
 	"log/slog"
@@ -155,6 +156,18 @@ func (c *Csv[T]) ReadFromReader(reader io.Reader) <-chan *T {
 func (c *Csv[T]) ReadFromFile(fileName string) (<-chan *T, error) {
 	file, err := os.Open(filepath.Clean(fileName))
 	if err != nil {
+		return nil, err
+	}
+
+	// Opening a directory succeeds, and reading it fails only later, inside the reader
+	// goroutine, where the failure would show as an empty stream instead of an error.
+	info, err := file.Stat()
+	if err == nil && info.IsDir() {
+		err = fmt.Errorf("%s is a directory", fileName)
+	}
+
+	if err != nil {
+		CloseAndLogErrorWithLogger(file, "Unable to close file.", c.Logger)
 		return nil, err
 	}
 
